@@ -40,7 +40,8 @@ def plan_jobs(cases, oracle, keys, tier, opts=None):
     return jobs
 
 
-def run_geo(pid, tier, seed, keys, what_text, sig_extra=None, classes=None, opts=None, post=None, extra_checks=None, variants=None):
+def run_geo(pid, tier, seed, keys, what_text, sig_extra=None, classes=None, opts=None, post=None, extra_checks=None, variants=None,
+            histories=True):
     """variants: list of (label, opts, keys) run in addition to ("", opts, keys)."""
     run = Run(pid, tier, seed)
     assert J.selftest()
@@ -55,6 +56,16 @@ def run_geo(pid, tier, seed, keys, what_text, sig_extra=None, classes=None, opts
     jobs = [j + ("",) for j in plan_jobs(cases, oracle, keys, tier, opts)]
     for label, vopts, vkeys in (variants or []):
         jobs += [j + (label,) for j in plan_jobs(cases, oracle, vkeys, "quick" if tier == "quick" else tier, vopts)]
+    if histories:
+        hv, mres = history_variants(keys, tier)
+        run.add_tlc(mres, "AurelCache on the extracted graph, 2 requests, nothing evicted: pre-histories for the compared keys")
+        run.info["pre_histories"] = [h[0] for h in hv]
+        sel = [ci for ci in range(1, len(cases) + 1) if oracle.get(ci) is not None][: (2 if tier == "quick" else 8)]
+        for label, vopts, vkeys in hv:
+            vo = dict(opts or {})
+            vo.update(vopts)
+            for ci in sel:
+                jobs.append((ci, 4, "interior", (cases[ci - 1], oracle[ci], 4, "interior", vkeys, vo), label))
     outs = GR.pmap(GR.compare_keys, [j[3] for j in jobs])
     for (ci, order, probe, job, label), mm in zip(jobs, outs):
         c = cases[ci - 1]
@@ -69,7 +80,7 @@ def run_geo(pid, tier, seed, keys, what_text, sig_extra=None, classes=None, opts
                 raise RuntimeError(m["error"])
             sig = {"clause": "TextbookValue", "key": m["key"], "needs": needs_of(c)}
             if label:
-                sig["variant"] = label
+                sig["variant"] = "after-history" if label.startswith("after ") else label
             if m.get("error"):
                 sig["exc"] = m["error"].split(":")[0]
             run.violation(sig,
@@ -90,6 +101,27 @@ def run_geo(pid, tier, seed, keys, what_text, sig_extra=None, classes=None, opts
                        "T_mu_nu := (G_mu_nu + Lambda g_mu_nu)/kappa from the oracle, supplied as a constant field (only used undifferentiated)",
                        "exact values are lifted from residues modulo 10 primes; values that do not reconstruct are skipped and counted"]
     return run.finish()
+
+
+_PRE_CACHE = {}
+
+
+def history_variants(keys, tier):
+    """Pre-histories from the cache model: every first request k1 of a two-request history that is the shortest one reaching
+    some (key, branch) of the evaluation programs.  The property's keys are evaluated again after each of them."""
+    from .. import cachemodel as M
+    from .. import extract as X
+    if "v" not in _PRE_CACHE:
+        graph = X.extract({})
+        res = M.run_model(graph, M.INPUT_SETS["tensors"], graph["keys"], 2, 10 ** 6, emit=True,
+                          invariants=["NoReentrancy", "NoUnexplored", "StackBounded"], properties=[])
+        pres = []
+        for p in res.printed:
+            if isinstance(p, dict) and p.get("hist") and len(p["hist"]) == 2 and p["hist"][0] not in pres:
+                pres.append(p["hist"][0])
+        _PRE_CACHE["v"] = (pres, res)
+    pres, res = _PRE_CACHE["v"]
+    return [("after " + k1, {"_pre": [k1]}, keys) for k1 in pres], res
 
 
 def needs_of(c):
